@@ -33,6 +33,9 @@ func (r *SyncRing[T]) Init(cap int) {
 		panic("ringz.SyncRing Init: invalid capacity: " + strconv.Itoa(cap))
 	case 1 == cap:
 		c = 2
+	case uint64(cap) > 1<<31:
+		// positions are 32-bit counters: a larger ring cannot be indexed (the capacity used to be truncated silently)
+		panic("ringz.SyncRing Init: capacity too large: " + strconv.Itoa(cap))
 	default:
 		c = uint32(cap)
 		if c&(c-1) > 0 {
